@@ -730,6 +730,7 @@ static void gen_C08(const std::string &tier, uint64_t seed, long idx, Scn &s) {
     s.i["T"] = T;
     s.i["len"] = (idx % 160) + (g.chance(0.3) ? (long)g.below(4 * CHB()) : 0);
     pick_sched(g, s, 0, T, true);
+    s.i["wtag"] = idx % 4;   // whole-tag substitution tried on the finished file: 0 none, 1 zeros (the blank field), 2 ones, 3 complement
     return;
   }
   idx -= nfile;
@@ -773,6 +774,28 @@ static Verdict run_C08(const Scn &s) {
     }
     for (size_t q = 10 + t.size(); q < 48; q++)
       if (F[q] != 0) { Verdict x = viol("file-zero-fill", "byte " + std::to_string(q) + " between tag and offset 48 is not zero"); x.trace_hash = v.trace_hash; return x; }
+    long wtag = s.geti("wtag", 0);
+    if (wtag > 0) {
+      // "accepts if and only if every tag byte matches", at the place where the stored tag is used: the same file with the
+      // whole tag replaced (all zero = the field as it is before the tag is written, all ones, complement) must be rejected
+      Bytes F2 = F;
+      for (size_t q = 10; q < 10 + t.size(); q++) F2[q] = wtag == 1 ? 0x00 : wtag == 2 ? 0xFF : (uint8_t)~F[q];
+      if (memcmp(&F2[10], &F[10], t.size()) != 0) {
+        g_stats.add("fault.whole_tag_replaced", 1);
+        SimFile fin2, fout2;
+        fin2.data = F2;
+        OpSpec ve = base_op(s, OP_VER, 1, &fin2, &fout2, (long)F2.size());
+        memcpy(ve.key, key, 16);
+        ve.T = T;
+        OpResult rv = run_slot(s, ve, 1, "ver", HANG_SKIP);
+        v.trace_hash = fnv1a_u64(v.trace_hash, rv.sr.trace_hash ^ (uint64_t)rv.ret);
+        if (rv.ret) {
+          Verdict x = viol("file-accepted-with-replaced-tag", std::string("verify accepted the file although its stored tag was replaced by ") + (wtag == 1 ? "zero bytes" : wtag == 2 ? "0xFF bytes" : "its complement"));
+          x.trace_hash = v.trace_hash;
+          return x;
+        }
+      }
+    }
     return v;
   }
   long mlen = s.geti("mlen");
